@@ -144,6 +144,8 @@ def run(ctx):
     ctx.mark("engine")
     ctx.suite("engine", runs=n2, live_vs_rebuilt_comparisons=checks, failures=len(fails))
     report_l2(ctx, fails)
+    from props._engine_common import run_runnerdiff
+    run_runnerdiff(ctx, ctx.n(60, 1500), 'C11_live_state_is_replay_of_log')
     ctx.require_coverage("engine", "live_vs_rebuilt_comparisons", checks, 300)
     ctx.partial.append("the clock readings at which ticks were processed are not recorded; equality 'timestamps aside' for "
                        "every history is proved for the runner model only with the recorded readings "
